@@ -120,29 +120,138 @@ lemma L_append (ε acc : Rat) (a b : List Rat) (z : Rat) :
   unfold L digitize
   rw [cumsumFrom_append, List.map_append, List.filter_append, List.length_append]
 
-lemma label_eq_L (ts : List Rat) (z : Rat) : label ts z = L nudgeEps 0 ts z := rfl
+/-- number of edges `≤ z`, the last edge not nudged -/
+def L' (ε acc : Rat) (ts : List Rat) (z : Rat) : Nat := digitize (nudgeInit ε (cumsumFrom acc ts)) z
 
-/-- complete description of the slice label: the atom belongs to the slice whose nudged window contains it -/
-theorem label_eq_of_mem_window (pre post : List Rat) (t z : Rat) (h : ∀ x ∈ pre ++ t :: post, 0 < x)
-    (hlo : listSum pre - nudgeEps ≤ z) (hhi : z < listSum pre + t - nudgeEps) :
-    label (pre ++ t :: post) z = pre.length := by
+lemma L'_single (ε acc t z : Rat) : L' ε acc [t] z = if acc + t ≤ z then 1 else 0 := by
+  unfold L' digitize
+  simp only [cumsumFrom, nudgeInit, List.filter_cons, List.filter_nil]
+  split <;> simp_all
+
+lemma L'_cons2 (ε acc t t' : Rat) (rest : List Rat) (z : Rat) :
+    L' ε acc (t :: t' :: rest) z = (if acc + t - ε ≤ z then 1 else 0) + L' ε (acc + t) (t' :: rest) z := by
+  unfold L' digitize
+  simp only [cumsumFrom, nudgeInit, List.filter_cons]
+  split <;> simp_all <;> omega
+
+lemma L'_zero_of_lt (ε acc : Rat) (ts : List Rat) (z : Rat) (hε : 0 ≤ ε) (h : ∀ t ∈ ts, 0 < t) (hz : z < acc - ε) :
+    L' ε acc ts z = 0 := by
+  induction ts generalizing acc with
+  | nil => rfl
+  | cons t ts ih =>
+    have ht := h t (by simp)
+    cases ts with
+    | nil => rw [L'_single, if_neg (by linarith)]
+    | cons t' rest =>
+      rw [L'_cons2, if_neg (by linarith), ih (acc + t) (fun x hx => h x (by simp [hx])) (by linarith)]
+
+lemma L'_all_of_ge (ε acc : Rat) (ts : List Rat) (z : Rat) (hε : 0 ≤ ε) (h : ∀ t ∈ ts, 0 < t) (hz : acc + listSum ts ≤ z) :
+    L' ε acc ts z = ts.length := by
+  induction ts generalizing acc with
+  | nil => rfl
+  | cons t ts ih =>
+    have hs := listSum_nonneg ts (fun x hx => h x (by simp [hx]))
+    simp only [listSum] at hz
+    cases ts with
+    | nil => simp only [listSum] at hz; rw [L'_single, if_pos (by linarith)]; rfl
+    | cons t' rest =>
+      rw [L'_cons2, if_pos (by linarith), ih (acc + t) (fun x hx => h x (by simp [hx])) (by linarith)]
+      simp; omega
+
+lemma L'_lt_length (ε acc : Rat) (ts : List Rat) (z : Rat) (hε : 0 ≤ ε) (h : ∀ t ∈ ts, 0 < t) (hne : ts ≠ [])
+    (hz : z < acc + listSum ts) : L' ε acc ts z < ts.length := by
+  induction ts generalizing acc with
+  | nil => exact absurd rfl hne
+  | cons t ts ih =>
+    simp only [listSum] at hz
+    cases ts with
+    | nil => simp only [listSum] at hz; rw [L'_single, if_neg (by linarith)]; simp
+    | cons t' rest =>
+      rw [L'_cons2]
+      by_cases h1 : acc + t - ε ≤ z
+      · rw [if_pos h1]
+        have := ih (acc + t) (fun x hx => h x (by simp [hx])) (by simp) (by linarith)
+        simp at this ⊢; omega
+      · rw [if_neg h1, L'_zero_of_lt ε (acc + t) _ z hε (fun x hx => h x (by simp [hx])) (by linarith)]
+        simp
+
+lemma nudgeInit_append (ε : Rat) (a b : List Rat) (hb : b ≠ []) :
+    nudgeInit ε (a ++ b) = a.map (· - ε) ++ nudgeInit ε b := by
+  induction a with
+  | nil => rfl
+  | cons x a ih =>
+    cases hab : a ++ b with
+    | nil => simp at hab; exact absurd hab.2 hb
+    | cons y rest =>
+      rw [List.cons_append, hab, nudgeInit, ← hab, ih]
+      rfl
+
+lemma cumsumFrom_ne_nil (acc : Rat) (ts : List Rat) (h : ts ≠ []) : cumsumFrom acc ts ≠ [] := by
+  cases ts with
+  | nil => exact absurd rfl h
+  | cons t ts => simp [cumsumFrom]
+
+lemma L'_append (ε acc : Rat) (a b : List Rat) (z : Rat) (hb : b ≠ []) :
+    L' ε acc (a ++ b) z = L ε acc a z + L' ε (acc + listSum a) b z := by
+  unfold L' L digitize
+  rw [cumsumFrom_append, nudgeInit_append ε _ _ (cumsumFrom_ne_nil _ b hb), List.filter_append, List.length_append]
+
+/-- complete description of the label with the last edge at the cell top -/
+lemma L'_eq_of_mem_window (ε : Rat) (hε : 0 ≤ ε) (pre post : List Rat) (t z : Rat) (h : ∀ x ∈ pre ++ t :: post, 0 < x)
+    (hlo : listSum pre - ε ≤ z) (hhi : z < listSum pre + t - (if post = [] then 0 else ε)) :
+    L' ε 0 (pre ++ t :: post) z = pre.length := by
   have hpre : ∀ x ∈ pre, 0 < x := fun x hx => h x (by simp [hx])
   have hpost : ∀ x ∈ post, 0 < x := fun x hx => h x (by simp [hx])
-  rw [label_eq_L, L_append, L_all_of_ge _ _ _ _ hpre (by linarith), L_cons, if_neg (by linarith),
-    L_zero_of_lt _ _ _ _ hpost (by linarith)]
-  simp
+  rw [L'_append ε 0 pre (t :: post) z (by simp), L_all_of_ge _ _ _ _ hpre (by linarith)]
+  cases post with
+  | nil =>
+    simp only [if_true, sub_zero] at hhi
+    rw [L'_single, if_neg (by linarith)]; simp
+  | cons p post' =>
+    simp only [List.cons_ne_nil, if_false] at hhi
+    rw [L'_cons2, if_neg (by linarith), L'_zero_of_lt ε _ _ z hε hpost (by linarith)]; simp
 
+lemma nondecreasing_nudgeInit (ε acc : Rat) (hε : 0 ≤ ε) (ts : List Rat) (h : ∀ t ∈ ts, 0 < t) :
+    nondecreasing (nudgeInit ε (cumsumFrom acc ts)) = true := by
+  induction ts generalizing acc with
+  | nil => rfl
+  | cons t ts ih =>
+    cases ts with
+    | nil => rfl
+    | cons t' rest =>
+      have ht' := h t' (by simp)
+      have := ih (acc + t) (fun x hx => h x (by simp [hx]))
+      cases rest with
+      | nil =>
+        simp only [cumsumFrom, nudgeInit, nondecreasing, Bool.and_eq_true, decide_eq_true_eq, and_true]
+        linarith
+      | cons t'' rest' =>
+        simp only [cumsumFrom, nudgeInit, nondecreasing, Bool.and_eq_true, decide_eq_true_eq] at this ⊢
+        exact ⟨by linarith, this⟩
+
+lemma nudgeEps_nonneg : (0 : Rat) ≤ nudgeEps := by unfold nudgeEps; norm_num
+
+lemma label_eq_L (ts : List Rat) (z : Rat) : label ts z = L' nudgeEps 0 ts z := rfl
+
+/-- complete description of the slice label: the atom belongs to the slice whose window contains it — `[c_(k-1) − ε, c_k − ε)` for
+every slice but the last, `[c_(n-2) − ε, H)` for the last one (the last edge, the cell top, is not nudged: fix 55e68782) -/
+theorem label_eq_of_mem_window (pre post : List Rat) (t z : Rat) (h : ∀ x ∈ pre ++ t :: post, 0 < x)
+    (hlo : listSum pre - nudgeEps ≤ z) (hhi : z < listSum pre + t - (if post = [] then 0 else nudgeEps)) :
+    label (pre ++ t :: post) z = pre.length := by
+  rw [label_eq_L]
+  exact L'_eq_of_mem_window nudgeEps nudgeEps_nonneg pre post t z h hlo hhi
+
+/-- an atom has a slice iff it lies below the cell top -/
 theorem label_lt_iff (ts : List Rat) (z : Rat) (h : ∀ t ∈ ts, 0 < t) (hne : ts ≠ []) :
-    label ts z < ts.length ↔ z < listSum ts - nudgeEps := by
+    label ts z < ts.length ↔ z < listSum ts := by
   constructor
   · intro hl
     by_contra hz
-    have := L_all_of_ge nudgeEps 0 ts z h (by linarith)
+    have := L'_all_of_ge nudgeEps 0 ts z nudgeEps_nonneg h (by linarith)
     rw [label_eq_L, this] at hl
     exact lt_irrefl _ hl
   · intro hz
-    exact L_lt_length nudgeEps 0 ts z h hne (by linarith)
-
+    exact L'_lt_length nudgeEps 0 ts z nudgeEps_nonneg h hne (by linarith)
 
 /-! snap / wrap -/
 theorem snap_covers_dropped (H z : Rat) (h : H - nudgeEps ≤ z) : snapCond z H = true := by
@@ -265,7 +374,7 @@ lemma sliceIndex_ok (ts zs : List Rat) (h : ∀ t ∈ ts, 0 < t) :
     sliceIndex ts zs = .ok ((List.range ts.length).map fun l =>
       (List.range zs.length).filter fun i => label ts (zs.getD i 0) == l) := by
   unfold sliceIndex
-  have : nondecreasing (binEdges ts) = true := nondecreasing_edges nudgeEps 0 ts h
+  have : nondecreasing (binEdges ts) = true := nondecreasing_nudgeInit nudgeEps 0 nudgeEps_nonneg ts h
   rw [if_pos this]
 
 /-- membership in the `l`-th index list = having slice label `l` -/
@@ -276,20 +385,20 @@ theorem mem_slice_iff (ts zs : List Rat) (h : ∀ t ∈ ts, 0 < t) (lists : List
   cases hl
   simp [List.getD_eq_getElem?_getD, List.getElem?_map, List.getElem?_range hlt]
 
-/-- **every atom is assigned to exactly one slice**: an atom below the dropped window `[H − ε, ∞)` occurs in exactly one
+/-- **every atom is assigned to exactly one slice**: an atom below the cell top occurs in exactly one
 index list (the one of its label) -/
 theorem unique_slice (ts zs : List Rat) (h : ∀ t ∈ ts, 0 < t) (hne : ts ≠ []) (lists : List (List Nat))
-    (hl : sliceIndex ts zs = .ok lists) (i : Nat) (hi : i < zs.length) (hz : zs.getD i 0 < listSum ts - nudgeEps) :
+    (hl : sliceIndex ts zs = .ok lists) (i : Nat) (hi : i < zs.length) (hz : zs.getD i 0 < listSum ts) :
     ∃! l, l < ts.length ∧ i ∈ lists.getD l [] := by
   have hlab := (label_lt_iff ts (zs.getD i 0) h hne).mpr hz
   refine ⟨label ts (zs.getD i 0), ⟨hlab, (mem_slice_iff ts zs h lists hl _ i hlab).mpr ⟨hi, rfl⟩⟩, ?_⟩
   rintro l ⟨hlt, hmem⟩
   exact ((mem_slice_iff ts zs h lists hl l i hlt).mp hmem).2.symm
 
-/-- … and an atom is in no slice (silently dropped by `label_to_index`) iff it lies in the window `[H − ε, ∞)` -/
+/-- … and an atom is in no slice (silently dropped by `label_to_index`) iff it lies at or above the cell top -/
 theorem dropped_iff (ts zs : List Rat) (h : ∀ t ∈ ts, 0 < t) (hne : ts ≠ []) (lists : List (List Nat))
     (hl : sliceIndex ts zs = .ok lists) (i : Nat) (hi : i < zs.length) :
-    (∀ l < ts.length, i ∉ lists.getD l []) ↔ listSum ts - nudgeEps ≤ zs.getD i 0 := by
+    (∀ l < ts.length, i ∉ lists.getD l []) ↔ listSum ts ≤ zs.getD i 0 := by
   constructor
   · intro hno
     by_contra hz
@@ -304,21 +413,22 @@ theorem dropped_iff (ts zs : List Rat) (h : ∀ t ∈ ts, 0 < t) (hne : ts ≠ [
 theorem boundary_goes_up (pre post : List Rat) (t : Rat) (h : ∀ x ∈ pre ++ t :: post, 0 < x) (ht : nudgeEps < t) :
     label (pre ++ t :: post) (listSum pre) = pre.length := by
   apply label_eq_of_mem_window pre post t _ h
-  · unfold nudgeEps; linarith
-  · linarith
+  · linarith [nudgeEps_nonneg]
+  · have := h t (by simp)
+    split <;> linarith
 
 /-- the nudge window: heights up to ε *below* a boundary are assigned to the upper slice as well -/
 theorem nudge_window (pre post : List Rat) (t z : Rat) (h : ∀ x ∈ pre ++ t :: post, 0 < x) (ht : nudgeEps < t)
     (hlo : listSum pre - nudgeEps ≤ z) (hhi : z < listSum pre) :
     label (pre ++ t :: post) z = pre.length := by
   apply label_eq_of_mem_window pre post t _ h hlo
-  have : (0 : Rat) < nudgeEps := by unfold nudgeEps; norm_num
-  linarith
+  have := h t (by simp)
+  split <;> linarith
 
 /-- after `_prepare_atoms` (wrap + snap) every atom has a slice: none is dropped -/
 theorem prepared_atom_has_slice (ts : List Rat) (h : ∀ t ∈ ts, 0 < t) (hne : ts ≠ []) (z : Rat)
-    (hH : nudgeEps < listSum ts) : label ts (prepareZ (listSum ts) z) < ts.length :=
-  (label_lt_iff ts _ h hne).mpr (prepareZ_lt_drop (listSum ts) z hH)
+    (hH : 0 < listSum ts) : label ts (prepareZ (listSum ts) z) < ts.length :=
+  (label_lt_iff ts _ h hne).mpr (prepareZ_range (listSum ts) z hH).2
 
 /-! ### finite projection: membership test of `SlicedAtoms` (generated `inSliceLo`, `inSliceHi`) -/
 
@@ -385,7 +495,7 @@ def projected (Lmap : Nat → V →+ V) (delta : P → V) (ts : List Rat) (atoms
       ((atoms.filter fun a => label ts a.2.2 = l).map fun a => (a.1, a.2.1))).sum
 
 theorem projected_eq_sum_atoms (Lmap : Nat → V →+ V) (delta : P → V) (ts : List Rat) (atoms : List (Nat × P × Rat))
-    (h : ∀ t ∈ ts, 0 < t) (hne : ts ≠ []) (hall : ∀ a ∈ atoms, a.2.2 < listSum ts - nudgeEps) :
+    (h : ∀ t ∈ ts, 0 < t) (hne : ts ≠ []) (hall : ∀ a ∈ atoms, a.2.2 < listSum ts) :
     projected Lmap delta ts atoms = (atoms.map fun a => Lmap a.1 (delta a.2.1)).sum := by
   unfold projected
   have h1 : ∀ l, slicePotential Lmap delta (((atoms.filter fun a => label ts a.2.2 = l).map fun a => a.1).dedup)
@@ -408,7 +518,7 @@ theorem projected_eq_sum_atoms (Lmap : Nat → V →+ V) (delta : P → V) (ts :
 thickness sequences under which no atom is dropped, the projections coincide (both are the sum over all atoms). -/
 theorem projection_indep_of_slicing (Lmap : Nat → V →+ V) (delta : P → V) (ts ts' : List Rat) (atoms : List (Nat × P × Rat))
     (h : ∀ t ∈ ts, 0 < t) (hne : ts ≠ []) (h' : ∀ t ∈ ts', 0 < t) (hne' : ts' ≠ [])
-    (hall : ∀ a ∈ atoms, a.2.2 < listSum ts - nudgeEps) (hall' : ∀ a ∈ atoms, a.2.2 < listSum ts' - nudgeEps) :
+    (hall : ∀ a ∈ atoms, a.2.2 < listSum ts) (hall' : ∀ a ∈ atoms, a.2.2 < listSum ts') :
     projected Lmap delta ts atoms = projected Lmap delta ts' atoms := by
   rw [projected_eq_sum_atoms Lmap delta ts atoms h hne hall, projected_eq_sum_atoms Lmap delta ts' atoms h' hne' hall']
 end projection
@@ -451,17 +561,80 @@ theorem validate_scalar_ok (H d : Rat) (hH : 0 < H) (hd : 0 < d) :
     linarith
   simp [this]
 
-/-- KNOWN FINDING (findings/C09.json, key `accepted-short-thickness-sequence-drops-atom`): an explicit thickness sequence is
-accepted when its sum is within the `np.isclose` tolerance of the cell height; if the sum is *short*, an atom between the
-sum and the cell top gets label `n` and is silently dropped.  Witness: thicknesses (5, 4.9999) for a 10 Å cell, atom at
-z = 9.99995.  (Full statement that fails: "every atom of an accepted slicing with 0 ≤ z < H has a slice".) -/
-theorem accepted_short_sequence_drops_atom_counterexample :
-    ¬ (∀ (ts : List Rat) (H z : Rat), (validateThickness (.inr ts) H).toOption = some ts → (∀ t ∈ ts, 0 < t) → 0 ≤ z → z < H →
-        label ts z < ts.length) := by
-  intro h
-  have := h [5, 49999/10000] 10 (999995/100000) (by decide +kernel) (by decide +kernel) (by decide +kernel) (by decide +kernel)
-  revert this
-  decide +kernel
+/-! ### the last bin edge is the cell top (`bin_edges[-1] = max(bin_edges[-1], cell_z)`) -/
+
+lemma stretchLast_length (H : Rat) (ts : List Rat) : (stretchLast H ts).length = ts.length := by
+  induction ts generalizing H with
+  | nil => rfl
+  | cons t ts ih =>
+    cases ts with
+    | nil => rfl
+    | cons t' rest => simp only [stretchLast, List.length_cons]; rw [ih (H - t)]; rfl
+
+lemma stretchLast_pos (H : Rat) (ts : List Rat) (h : ∀ t ∈ ts, 0 < t) : ∀ t ∈ stretchLast H ts, 0 < t := by
+  induction ts generalizing H with
+  | nil => intro t ht; cases ht
+  | cons t ts ih =>
+    have ht := h t (by simp)
+    cases ts with
+    | nil =>
+      intro x hx
+      simp only [stretchLast, List.mem_singleton] at hx
+      subst hx
+      split <;> linarith
+    | cons t' rest =>
+      intro x hx
+      simp only [stretchLast, List.mem_cons] at hx
+      rcases hx with rfl | hx
+      · exact ht
+      · exact ih (H - t) (fun y hy => h y (by simp [hy])) x (by simpa [stretchLast] using hx)
+
+lemma listSum_stretchLast (H : Rat) (ts : List Rat) (hne : ts ≠ []) : listSum (stretchLast H ts) = max (listSum ts) H := by
+  induction ts generalizing H with
+  | nil => exact absurd rfl hne
+  | cons t ts ih =>
+    cases ts with
+    | nil =>
+      simp only [stretchLast, listSum, add_zero]
+      split
+      · rw [max_eq_right (by linarith)]; ring
+      · rw [max_eq_left (by linarith)]; ring
+    | cons t' rest =>
+      simp only [stretchLast, listSum]
+      have := ih (H - t) (by simp)
+      simp only [listSum] at this
+      rw [this, ← max_add_add_left]
+      congr 1; ring
+
+lemma stretchLast_eq_self (H : Rat) (ts : List Rat) (h : H ≤ listSum ts) : stretchLast H ts = ts := by
+  induction ts generalizing H with
+  | nil => rfl
+  | cons t ts ih =>
+    cases ts with
+    | nil =>
+      simp only [listSum, add_zero] at h
+      simp only [stretchLast]
+      rw [if_neg (by linarith)]; simp
+    | cons t' rest =>
+      simp only [stretchLast]
+      rw [ih (H - t) (by simp only [listSum] at h ⊢; linarith)]
+
+/-- **no atom below the cell top is dropped** (fix 'last edge = cell top'): for every positive thickness sequence — also one whose
+sum is short of the cell height — an atom has a slice iff it lies below `max(Σ ts, H)`; in particular every `z < H` has one. -/
+theorem labelTop_lt_iff (ts : List Rat) (H z : Rat) (h : ∀ t ∈ ts, 0 < t) (hne : ts ≠ []) :
+    labelTop ts H z < ts.length ↔ z < max (listSum ts) H := by
+  unfold labelTop
+  have hne' : stretchLast H ts ≠ [] := by
+    intro hc; have := stretchLast_length H ts; rw [hc] at this; cases ts <;> simp_all
+  rw [← stretchLast_length H ts, label_lt_iff _ z (stretchLast_pos H ts h) hne', listSum_stretchLast H ts hne]
+
+theorem atoms_below_cell_top_have_slice (ts : List Rat) (H z : Rat) (h : ∀ t ∈ ts, 0 < t) (hne : ts ≠ []) (hz : z < H) :
+    labelTop ts H z < ts.length :=
+  (labelTop_lt_iff ts H z h hne).mpr (lt_of_lt_of_le hz (le_max_right _ _))
+
+/-- for thicknesses that reach the cell top the code's label is the label of the plain sequence (all theorems above apply) -/
+theorem labelTop_eq_label (ts : List Rat) (H z : Rat) (h : H ≤ listSum ts) : labelTop ts H z = label ts z := by
+  unfold labelTop; rw [stretchLast_eq_self H ts h]
 
 /-- KNOWN FINDING (key `accepted-thickness-sequence-sum-ne-height`): the accepted explicit sequence need not sum to the cell
 height (it only has to be `np.isclose`, see `validate_accepts_only_close_sums`). -/
